@@ -556,6 +556,18 @@ class CallMixin:
         mk = sort_of(t).constructor(0)
         return k(st, st.alloc(HList(t, z3.Lambda([i], mk(i, z3.Select(h.arr, i))), h.n)))
 
+    def bi_zip(self, args, kws, st, node, k):
+        if len(args) != 2:
+            raise Unsupported("zip of %d iterables (line %s)" % (len(args), node.lineno))
+        a, b = [self.hlist(self.iter_to_list(x, st), st) for x in args]
+        if a.et is None or b.et is None:
+            return k(st, st.alloc(HList(None, None, z3.IntVal(0))))
+        t = ('tuple', (a.et, b.et))
+        i = z3.Int(fresh_name('zi'))
+        mk = sort_of(t).constructor(0)
+        n = z3.If(a.n <= b.n, a.n, b.n)
+        return k(st, st.alloc(HList(t, z3.Lambda([i], mk(z3.Select(a.arr, i), z3.Select(b.arr, i))), n)))
+
     def bi_sorted(self, args, kws, st, node, k):
         h = self.hlist(self.iter_to_list(args[0], st), st)
         if h.et is None:
